@@ -188,44 +188,78 @@ def t2(model: Model, rep: Report):
             and es[1].field("acquisition_tag") == ("const", "heralded") and es[2].cls == "circuit_components.get_circuit_initialize" and all(not atoms_of(e.cond) for e in es)
         rep.check(ok, "C10.T2", "get_circuit_initialize_with_heralded", f.loc, found=kinds, required="Reset(every prepared qubit); heralded measurement(every measured qubit); wrapped preparation",
                   what="heralded initialisation does not reset every prepared qubit before measuring", detail="heralded")
-    # calibration
+    # calibration: read once per requested state (the pulse table is then a concrete sequence)
     g = model.function("state_calibration.circuit_components", "get_circuit_calibrate_with_heralded")
-    ev = Evaluator(model, inline_methods=False)
-    ps = PathEnumerator(ev).function_paths(g)
-    qs, state = sym(g.param_names[0]), sym(g.param_names[1])
-    for p in [q for q in ps if q.exit == "return"]:
-        es = emits(p, p.value)
+    state_name = g.param_names[1]
+    bad: List[str] = []
+    n_states = 0
+    for k in (0, 1, 2):
+        stv = ("enum", "StateKey", f"STATE_{k}")
+        ev = Evaluator(model, inline_methods=False)
+        try:
+            ps = [q for q in PathEnumerator(ev).function_paths(g, args={state_name: stv}) if q.exit == "return"]
+        except Unsupported as e:
+            raise AnalysisError(f"get_circuit_calibrate_with_heralded: {e}")
+        if len(ps) != 1:
+            raise AnalysisError(f"get_circuit_calibrate_with_heralded: {len(ps)} return paths for STATE_{k} (expected one once the state is fixed)")
+        n_states += 1
+        p = ps[0]
         res = p.value
-        rel = lambda: ("new", "RelationLink", (("_reference_node", ("call", ("attr", res, "get_last_entry"), (), ())), ("_relation_type", ("enum", "RelationType", "FOLLOWED_BY"))))
-        bad = []
-        by = {}
-        for e in es:
-            by.setdefault(e.cls, []).append(e)
-        if [e.cls for e in es[:2]] != ["Reset", "DispersiveMeasure"] or es[1].field("acquisition_tag") != ("const", "heralded"):
-            bad.append("does not start with Reset and heralded measurement of every qubit")
-        for k in (0, 1, 2):
-            stv = ("enum", "StateKey", f"STATE_{k}")
-            pulses = [e for e in es if e.cls in ("Rx180", "Rx180ef") and resolve_max(subst(e.cond, {state: stv})) == TRUE]
-            want = {0: [], 1: ["Rx180"], 2: ["Rx180", "Rx180ef"]}[k]
-            if [e.cls for e in pulses] != want:
-                bad.append(f"STATE_{k}: pulses {[e.cls for e in pulses]} instead of {want}")
-                continue
-            if pulses:
-                r = pulses[0].field("relation")
-                if _strip_lines(devar(r)) != _strip_lines(rel()) if r is not None else True:
-                    bad.append(f"STATE_{k}: the first pulse does not carry the relation taken after the heralded measurements (it is placed right after the reset, in parallel with the readout)")
-                if len(pulses) == 2 and pulses[1].field("relation") is not None:
-                    bad.append(f"STATE_{k}: the second pulse must follow the first implicitly")
-        fin = [e for e in es if e.cls == "DispersiveMeasure" and e.field("acquisition_tag") == ("const", "final")]
-        if len(fin) != 1 or _strip_lines(devar(fin[0].field("relation"))) != _strip_lines(rel()):
-            bad.append("final measurements do not carry a relation to the last pulse")
-        # the relation for the final measurements must be re-taken AFTER the pulse loop (syntactic: time of evaluation)
-        assigns = [n for n in ast.walk(g.node) if isinstance(n, ast.Assign) and isinstance(n.targets[0], ast.Name) and n.targets[0].id == "relation"]
-        loops = [n for n in g.node.body if isinstance(n, ast.For)]
-        if len(assigns) != 2 or len(loops) != 4 or not (loops[1].lineno < assigns[0].lineno < loops[2].lineno < assigns[1].lineno < loops[3].lineno):
-            bad.append("the shared relations are not taken between the groups (heralded -> pulses -> final)")
-        rep.check(not bad, "C10.T2", "get_circuit_calibrate_with_heralded", g.loc, found="; ".join(bad) or "reset, heralded, pulses after the readout, final after the pulses", required="each group starts FOLLOWED_BY the last operation of the preceding group",
-                  what="a calibration pulse or measurement can overlap the heralded readout on the same qubit: " + "; ".join(bad), detail="calibration")
+        rel = ("new", "RelationLink", (("_reference_node", ("call", ("attr", res, "get_last_entry"), (), ())), ("_relation_type", ("enum", "RelationType", "FOLLOWED_BY"))))
+        seq = _linear(p.events, res)
+        emitted = [(i, x) for i, kind, x in seq if kind == "emit"]
+        taken = [i for i, kind, x in seq if kind == "relation" and _strip_lines(devar(x)) == _strip_lines(rel)]
+        kinds = [x.cls for _, x in emitted]
+        pulses = [(i, x) for i, x in emitted if x.cls in ("Rx180", "Rx180ef")]
+        want = {0: [], 1: ["Rx180"], 2: ["Rx180", "Rx180ef"]}[k]
+        her = [(i, x) for i, x in emitted if x.cls == "DispersiveMeasure" and x.field("acquisition_tag") == ("const", "heralded")]
+        fin = [(i, x) for i, x in emitted if x.cls == "DispersiveMeasure" and x.field("acquisition_tag") == ("const", "final")]
+        if kinds[:2] != ["Reset", "DispersiveMeasure"] or len(her) != 1 or her[0][0] != emitted[1][0]:
+            bad.append(f"STATE_{k}: does not start with Reset and heralded measurement of every qubit")
+            continue
+        if [x.cls for _, x in pulses] != want:
+            bad.append(f"STATE_{k}: pulses {[x.cls for _, x in pulses]} instead of {want}")
+            continue
+        if len(fin) != 1:
+            bad.append(f"STATE_{k}: {len(fin)} final measurements")
+            continue
+        if pulses:
+            r = pulses[0][1].field("relation")
+            if r is None or _strip_lines(devar(r)) != _strip_lines(rel):
+                bad.append(f"STATE_{k}: the first pulse does not carry the relation taken after the heralded measurements (it is placed right after the reset, in parallel with the readout)")
+            elif not [t for t in taken if her[0][0] < t < pulses[0][0]]:
+                bad.append(f"STATE_{k}: the relation of the first pulse is not taken between the heralded measurements and the pulses")
+            if len(pulses) == 2 and pulses[1][1].field("relation") is not None:
+                bad.append(f"STATE_{k}: the second pulse must follow the first implicitly")
+        rf = fin[0][1].field("relation")
+        after = pulses[-1][0] if pulses else her[0][0]
+        if rf is None or _strip_lines(devar(rf)) != _strip_lines(rel) or not [t for t in taken if after < t < fin[0][0]]:
+            bad.append(f"STATE_{k}: final measurements do not carry a relation taken after the last pulse")
+    rep.check(not bad, "C10.T2", "get_circuit_calibrate_with_heralded", g.loc, found="; ".join(bad) or "reset, heralded, pulses after the readout, final after the pulses", required="each group starts FOLLOWED_BY the last operation of the preceding group",
+              what="a calibration pulse or measurement can overlap the heralded readout on the same qubit: " + "; ".join(bad), detail="calibration")
+    rep.floor("calibration states read", n_states, 3)
+
+
+def _linear(events, recv, start: int = 0, out=None):
+    """events in execution order (loop bodies in place, first body path that emits): (index, 'emit' | 'relation', what)"""
+    from ..builder import Emit, _same_obj
+    out = [] if out is None else out
+    for e in events:
+        if e.kind == "loop":
+            bodies = e.extra["paths"]
+            pick = next((bp for bp in bodies if any(ev_.kind in ("effect", "loop", "assign") for ev_ in bp.events)), bodies[0] if bodies else None)
+            if pick is not None:
+                _linear(pick.events, recv, 0, out)
+            continue
+        if e.kind == "assign" and e.term is not None and (e.term[0] == "new" or (e.term[0] == "var" and e.term[3][0] == "new")) and "RelationLink" in show(e.term)[:40]:
+            out.append((len(out), "relation", e.term))
+        if e.kind == "effect" and e.term is not None:
+            for c in find_calls(e.term, "add"):
+                if isinstance(c[1], tuple) and c[1][0] == "attr" and _same_obj(c[1][1], recv):
+                    arg = (list(c[2]) + [v for _, v in c[3]] + [None])[0]
+                    if arg is not None:
+                        out.append((len(out), "emit", Emit(arg, (), TRUE, e.node)))
+    return out
 
 
 def _truth_of(c: Term, L: Term, value: Term) -> Term:
